@@ -708,4 +708,14 @@ pub mod probe {
     impl<'a, P: ?Sized> core::ops::Neg for &'a Tag<P> { type Output = Tag<P>; fn neg(self) -> Tag<P> { *self } }
     impl<P: ?Sized> core::ops::Not for Tag<P> { type Output = Tag<P>; fn not(self) -> Tag<P> { self } }
     impl<'a, P: ?Sized> core::ops::Not for &'a Tag<P> { type Output = Tag<P>; fn not(self) -> Tag<P> { *self } }
+
+    /// Like `Tag`, with a second parameter on which the unary operators are CONDITIONAL (`T: Clone`): a derived impl
+    /// type-checks only if its where-clause names exactly the field type its body uses.
+    pub struct TagC<P: ?Sized, T>(pub core::marker::PhantomData<T>, pub core::marker::PhantomData<P>);
+    impl<P: ?Sized, T> Clone for TagC<P, T> { fn clone(&self) -> Self { TagC(core::marker::PhantomData, core::marker::PhantomData) } }
+    impl<P: ?Sized, T> Copy for TagC<P, T> {}
+    impl<P: ?Sized, T: Clone> core::ops::Neg for TagC<P, T> { type Output = TagC<P, T>; fn neg(self) -> TagC<P, T> { self } }
+    impl<'a, P: ?Sized, T: Clone> core::ops::Neg for &'a TagC<P, T> { type Output = TagC<P, T>; fn neg(self) -> TagC<P, T> { *self } }
+    impl<P: ?Sized, T: Clone> core::ops::Not for TagC<P, T> { type Output = TagC<P, T>; fn not(self) -> TagC<P, T> { self } }
+    impl<'a, P: ?Sized, T: Clone> core::ops::Not for &'a TagC<P, T> { type Output = TagC<P, T>; fn not(self) -> TagC<P, T> { *self } }
 }
